@@ -218,6 +218,7 @@ def run(ctx, rep):
     # ---- (a') capture depth ordering ------------------------------------------------
     from props import _netdeps
     _netdeps.run(F, rep, "C07.net-dependencies")
+    _netdeps.cycle_boundary(F, rep, "C07.cycle-boundary")
     from props import _depfilter
     _depfilter.run(F, rep, "C07")
 
